@@ -381,6 +381,10 @@ def run(repo: Repo, rep: Report, tier: str) -> None:
         rep.undecide("R17.3", "get_type_name_identifier has a shape the rule does not know")
     from ..core import regget
     regget.report(repo, rep, "R17.6", {"modules-final-type"})
+    # rules of sibling properties that are necessary conditions of this one as well (same rule ids)
+    from ..core.report import Only
+    from . import c15 as _c15
+    _c15._aliases(repo, Only(rep, {"R15.7"}))
 
 def _skel(it) -> str:
     return " | ".join(l.tmpl.skeleton() for l in it.lines)
